@@ -242,6 +242,10 @@ def panic_sites(prog, chk, reach):
             if w:
                 why = ("D3 " if s.kind == "split_at" else "D4 ") + w
         if why is None and s.kind == "split_at":
+            w = D.tail_offset_guard(prog, body, s.bb, s.term)
+            if w:
+                why = "D3 " + w
+        if why is None and s.kind == "split_at":
             w = D.len_fraction_guard(body, s.bb, s.term)
             if w:
                 why = "D2 " + w
